@@ -45,7 +45,9 @@ theorem Eff.seq {s1 s2 : List LCell} {a b c : SNode} (h1 : Eff s1 a b) (h2 : Eff
 
 theorem Eff.nil_eq {a b : SNode} (h : Eff [] a b) : b = a := by
   obtain ⟨ps, hp, rfl⟩ := h
-  cases ps <;> simp [treeCells]
+  cases ps with
+  | nil => simp
+  | cons p ps => simp [PayShapeL] at hp
 
 theorem Eff.one (c : LCell) (p : CPay) (st : SNode) (hp : PayShape c p) : Eff [c] st (treeCell c p st).1 :=
   ⟨[p], by simp [PayShapeL, hp], by simp [treeCells]⟩
